@@ -67,7 +67,7 @@ def expr_level(ctx, exe, harness, quick, stats):
             f.write(rp["case"] + "\n")
         args = [harness, "--out", work, "--replay-cases", cf]
     elif quick:
-        args += ["--npr", "6000", "--npa", "5000", "--nsc", "6000"]
+        args += ["--npr", "4000", "--npa", "3000", "--nsc", "4000"]
     else:
         args += ["--npr", "150000", "--npa", "120000", "--nsc", "150000"]
     vlib.run(args, timeout=3000)
